@@ -520,14 +520,14 @@ def lib_sign(b, key, p, now, request_mac, tsig_ctx, multi, via="lib"):
     return w, ctx_out, (rec[0] if rec else None)
 
 
-def lib_read(w, keyring, now, request_mac, tsig_ctx, multi, origin=None, coe=False):
+def lib_read(w, keyring, now, request_mac, tsig_ctx, multi, origin=None, coe=False, opts=None):
     """from_wire under the fixed clock; returns (message or None, exception or None, hmac log of the call).
     With continue_on_error the first recorded error stands for the exception."""
     CLOCK.t = now
     n0 = len(SHIM.log)
     try:
         m = dns.message.from_wire(w, keyring=keyring, request_mac=request_mac, tsig_ctx=tsig_ctx, multi=multi, origin=origin,
-                                  continue_on_error=coe)
+                                  continue_on_error=coe, **(opts or {}))
         if coe and m.errors:
             return None, m.errors[0].exception, SHIM.log[n0:]
         return m, None, SHIM.log[n0:]
@@ -1025,6 +1025,55 @@ def eval_seq(ctx, c, rep):
         fail(ctx, f"C14/validate/genuine-sequence-rejected/{signer}",
                  f"envelope {bad} of a {len(envs)}-envelope exchange (signed: {[int(x['signed']) for x in envs]}, signer {signer}) does not validate: {e!r}", rep)
         return
+    # the reader options that do not change what is signed: the same exchange under every combination of them
+    base_ctx = []
+    vctx = None
+    for i, w in enumerate(wires):
+        m2, _, _ = lib_read(w, key, now + i, rm, vctx, True)
+        vctx = m2.tsig_ctx
+        base_ctx.append((e_ctx(vctx), m2.had_tsig, m2.mac))
+    pattern = [int(x["signed"]) for x in envs]
+    unsigned = [i for i, x in enumerate(envs) if not x["signed"]]
+    for combo in range(32):
+        opts = {"ignore_trailing": bool(combo & 1), "one_rr_per_rrset": bool(combo & 2), "xfr": bool(combo & 4),
+                "raise_on_truncation": bool(combo & 16)}
+        coe = bool(combo & 8)
+        tag = "+".join(k for k, v in dict(opts, continue_on_error=coe).items() if v) or "defaults"
+        vctx = None
+        for i, w in enumerate(wires):
+            # with ignore_trailing, actual trailing octets after a signed envelope (the TSIG RR marks its end)
+            ww = w + b"\x00\xff" if (opts["ignore_trailing"] and envs[i]["signed"] and (combo + i) % 3 == 0) else w
+            m2, e, _ = lib_read(ww, key, now + i, rm, vctx, True, coe=coe, opts=opts)
+            if e is not None:
+                fail(ctx, "C14/validate/genuine-sequence-rejected/options",
+                     f"envelope {i} of a genuine {len(envs)}-envelope exchange (signed: {pattern}, signer {signer}) is rejected when read with {tag}: {e!r}",
+                     rep | {"options": tag})
+                break
+            if (e_ctx(m2.tsig_ctx), m2.had_tsig, m2.mac) != base_ctx[i]:
+                fail(ctx, "C14/from_wire/options/tsig-state-differs",
+                     f"envelope {i}: read with {tag} the running TSIG context / MAC differs from the one under default options (which equals the RFC 8945 5.3.1 reference)",
+                     rep | {"options": tag})
+                break
+            vctx = m2.tsig_ctx
+        ctx.count("seq.options")
+        # an altered unsigned envelope is detected at the next signed one, whatever the options
+        if unsigned and combo % 4 == (c["now"] % 4):
+            fi = unsigned[(combo // 4) % len(unsigned)]
+            bit = (c["now"] * 31 + combo * 977) % (len(wires[fi]) * 8)
+            ws = list(wires)
+            ws[fi] = flip(wires[fi], bit)
+            vctx, caught, last = None, False, None
+            for i, w in enumerate(ws):
+                m2, e, _ = lib_read(w, key, now + i, rm, vctx, True, coe=coe, opts=opts)
+                if e is not None:
+                    caught = True
+                    break
+                vctx, last = m2.tsig_ctx, m2
+            ctx.count("seq.options.altered-unsigned." + ("caught" if caught else "ACCEPTED"))
+            if not caught and last is not None and last.had_tsig:
+                fail(ctx, "C14/from_wire/bitflip-accepted/multi/unsigned-envelope/options",
+                     f"bit {bit} of unsigned envelope {fi} altered; read with {tag} the whole exchange (signed: {pattern}) still validates",
+                     rep | {"options": tag, "bit": bit, "env": fi})
     # alterations: chosen envelope, chosen bits; the exchange must fail at or after that envelope
     for fi, bits in c.get("flips", []):
         w = wires[fi]
